@@ -50,6 +50,14 @@ Sections:
              uses < 50 ms of CPU (/proc/self/task/<tid>/stat). A rule is reported only if it fires in 3
              of 3 repetitions; all four are counts of what a parked thread cannot do, none compares
              wall-clock durations.
+* `herd`   – MORE blocked fallible senders than the capacity, all woken by the same take: 6–16 threads (or
+             tasks of one runtime) loop `sync::blocking_send` / `tokio::blocking_send` / `tokio::send` on
+             capacity 1–4 with a generous (20 s) or short (1–3 ms) timeout while a receiver thread takes a
+             batch every 100–500 µs; there is NO plain `send` in the scenario. Every `Ok` item reaches the
+             processor exactly once, every `Err` hands back the same item (not before T) and that item never
+             shows up, `queue_full_truncated` stays 0 (any truncation would be a silent discard by a
+             fallible variant), no batch is larger than the capacity. The number of `on_take` watchers
+             registered when the processor is done with a batch (= senders the next take wakes) is recorded.
 * `conc`   – 2–8 sender threads + a sampler thread + a real receiver thread that is stalled and
              released; every sender (after each op) and the sampler assert the bound through the
              snapshot; afterwards accepted = delivered ⊎ truncated with `lost == events × capacity`.
@@ -2421,6 +2429,340 @@ mod threads {
             r.sample(move || json!({"case": case, "accepted": na, "handed_back": nr, "delivered": nd, "truncation_events": trunc, "lost": lost, "max_pending_seen": mp}));
         }
     }
+
+    // ---- more blocked fallible senders than the capacity, all woken by the same take ----
+
+    #[derive(Clone, Copy, Debug, PartialEq, Eq, Hash)]
+    pub enum HerdMode {
+        /// every sender thread loops this variant
+        All(BlockKind),
+        /// the variant is drawn per sender thread
+        Mixed,
+        /// `tokio::send` from that many tasks of ONE current-thread runtime
+        #[cfg(feature = "tokio")]
+        AsyncTasks,
+    }
+
+    impl HerdMode {
+        fn name(self) -> String {
+            match self {
+                HerdMode::All(k) => k.name().to_string(),
+                HerdMode::Mixed => "mixed".to_string(),
+                #[cfg(feature = "tokio")]
+                HerdMode::AsyncTasks => "tokio::send (tasks of one runtime)".to_string(),
+            }
+        }
+    }
+
+    #[derive(Default)]
+    struct HerdOut {
+        /// (id, variant) of every send that returned Ok
+        accepted: Vec<(u64, BlockKind)>,
+        /// ids handed back with Err(item)
+        handed_back: Vec<u64>,
+        viols: Vec<Viol>,
+    }
+
+    impl HerdOut {
+        fn record(&mut self, id: u64, kind: BlockKind, t: Duration, elapsed: Duration, res: Result<Result<(), BatchError<u64>>, String>) {
+            match res {
+                Ok(Ok(())) => self.accepted.push((id, kind)),
+                Ok(Err(e)) => {
+                    let back = e.into_retryable();
+                    if back != Some(id) {
+                        self.viols.push(viol(
+                            format!("C09:fallible-send:err-without-the-item:woken-senders-exceed-capacity:{}", kind.name()),
+                            format!("{} of {:#x} returned Err and handed back {:?} instead of the item (the channel was open: its receiver was running)", kind.name(), id, back),
+                        ));
+                    } else {
+                        self.handed_back.push(id);
+                        if elapsed < t {
+                            self.viols.push(viol(
+                                format!("C09:{}:returned-before-timeout", kind.name()),
+                                format!("{} gave up after {:?} with a timeout of {:?}", kind.name(), elapsed, t),
+                            ));
+                        }
+                    }
+                }
+                Err(msg) => self.viols.push(viol(format!("C09:{}:panicked", kind.name()), format!("{} panicked among many blocked senders: {}", kind.name(), msg))),
+            }
+        }
+    }
+
+    #[derive(Default)]
+    struct HerdRecv {
+        batches: Vec<Vec<u64>>,
+        /// `on_take` watchers registered when the processor is done with a batch = blocked senders the NEXT take wakes
+        waiting_sum: u64,
+        waiting_max: u64,
+        takes_waking_more_than_capacity: u64,
+        max_pending: u64,
+    }
+
+    /// 6-16 senders loop a fallible send (generous or short timeout) on capacity 1-4 while a receiver
+    /// takes a batch every few hundred microseconds. There is NO plain `send` in the scenario.
+    pub fn herd_case(r: &mut Report, seed: u64, i: u64) {
+        let mut g = Rng::stream(seed, &[9, 7, i]);
+        let cap = g.range(1, 4) as usize;
+        let n_senders = g.range(6, 16) as usize;
+        let kinds = BlockKind::all();
+        #[allow(unused_mut)]
+        let mut modes: Vec<HerdMode> = kinds.iter().map(|k| HerdMode::All(*k)).collect();
+        modes.push(HerdMode::Mixed);
+        #[cfg(feature = "tokio")]
+        modes.push(HerdMode::AsyncTasks);
+        let mode = modes[(i % modes.len() as u64) as usize];
+        let rk = *g.pick(&RecvKind::all());
+        let per_sender = g.range(30, 120);
+        let period = Duration::from_micros(*g.pick(&[100u64, 200, 300, 500]));
+        // mostly generous (the item must get in), sometimes short (many hand-backs)
+        let t = if g.chance(1, 4) { Duration::from_millis(*g.pick(&[1u64, 3])) } else { Duration::from_secs(20) };
+        let case = json!({"section": "herd", "seed": seed, "case": i, "capacity": cap, "senders": n_senders, "sends_per_sender": per_sender,
+                          "variant": mode.name(), "receiver": rk.name(), "processor_us_per_batch": period.as_micros() as u64,
+                          "timeout_ms": t.as_millis() as u64, "plain_sends": 0});
+        r.eval();
+        let (sender, receiver) = bounded::<Chan>(cap);
+        let metric_source = sender.metric_source();
+        let sender = Arc::new(sender);
+        let seen: Arc<Mutex<HerdRecv>> = Arc::new(Mutex::new(HerdRecv::default()));
+        let on_batch = {
+            let seen = seen.clone();
+            let weak = Arc::downgrade(&sender);
+            move |batch: Chan| {
+                let mut s = seen.lock().unwrap();
+                s.batches.push(batch);
+                drop(s);
+                thread::sleep(period);
+                if let Some(sender) = weak.upgrade() {
+                    let snap = sender.verif_snapshot();
+                    let mut s = seen.lock().unwrap();
+                    s.waiting_sum += snap.on_take as u64;
+                    s.waiting_max = s.waiting_max.max(snap.on_take as u64);
+                    if snap.on_take > cap {
+                        s.takes_waking_more_than_capacity += 1;
+                    }
+                    s.max_pending = s.max_pending.max(snap.pending_len as u64);
+                }
+            }
+        };
+        let handle = match rk {
+            RecvKind::Sync => {
+                emit_batcher::sync::spawn("c09_herd_rx", receiver, move |batch: Chan| {
+                    on_batch(batch);
+                    Ok(())
+                })
+                .expect("spawn receiver")
+            }
+            #[cfg(feature = "tokio")]
+            RecvKind::Tokio => {
+                emit_batcher::tokio::spawn("c09_herd_rx", receiver, move |batch: Chan| {
+                    on_batch(batch);
+                    async move {
+                        tokio::task::yield_now().await;
+                        Ok(())
+                    }
+                })
+                .expect("spawn receiver")
+            }
+        };
+
+        let barrier = Arc::new(std::sync::Barrier::new(match mode {
+            #[cfg(feature = "tokio")]
+            HerdMode::AsyncTasks => 1,
+            _ => n_senders,
+        }));
+        let mut threads: Vec<thread::JoinHandle<HerdOut>> = Vec::new();
+        match mode {
+            #[cfg(feature = "tokio")]
+            HerdMode::AsyncTasks => {
+                let sender = sender.clone();
+                threads.push(thread::spawn(move || {
+                    let rt = tokio::runtime::Builder::new_current_thread().enable_all().build().unwrap();
+                    let out = Arc::new(Mutex::new(HerdOut::default()));
+                    rt.block_on(async {
+                        let mut tasks = Vec::new();
+                        for ti in 0..n_senders {
+                            let (sender, out) = (sender.clone(), out.clone());
+                            tasks.push(tokio::spawn(async move {
+                                for k in 0..per_sender {
+                                    let id = ((ti as u64 + 1) << 32) | k;
+                                    let start = Instant::now();
+                                    let res = emit_batcher::tokio::send(&sender, id, t).await;
+                                    out.lock().unwrap().record(id, BlockKind::TokioAsync, t, start.elapsed(), Ok(res));
+                                }
+                            }));
+                        }
+                        for (ti, task) in tasks.into_iter().enumerate() {
+                            if let Err(e) = task.await {
+                                out.lock().unwrap().viols.push(viol("C09:tokio::send:panicked", format!("task {} looping tokio::send among many blocked senders died: {}", ti, e)));
+                            }
+                        }
+                    });
+                    let mut o = out.lock().unwrap();
+                    std::mem::take(&mut *o)
+                }));
+            }
+            _ => {
+                for ti in 0..n_senders {
+                    let kind = match mode {
+                        HerdMode::All(k) => k,
+                        _ => *g.pick(&kinds),
+                    };
+                    let (sender, barrier) = (sender.clone(), barrier.clone());
+                    threads.push(thread::spawn(move || {
+                        let mut out = HerdOut::default();
+                        #[cfg(feature = "tokio")]
+                        let rt = if kind == BlockKind::TokioAsync { Some(tokio::runtime::Builder::new_current_thread().enable_all().build().unwrap()) } else { None };
+                        barrier.wait();
+                        for k in 0..per_sender {
+                            let id = ((ti as u64 + 1) << 32) | k;
+                            let start = Instant::now();
+                            let res = catch(|| match kind {
+                                BlockKind::Sync => emit_batcher::sync::blocking_send(&sender, id, t),
+                                #[cfg(feature = "tokio")]
+                                BlockKind::TokioBlocking => emit_batcher::tokio::blocking_send(&sender, id, t),
+                                #[cfg(feature = "tokio")]
+                                BlockKind::TokioAsync => rt.as_ref().unwrap().block_on(emit_batcher::tokio::send(&sender, id, t)),
+                            });
+                            let stop = res.is_err();
+                            out.record(id, kind, t, start.elapsed(), res);
+                            if stop {
+                                break;
+                            }
+                        }
+                        out
+                    }));
+                }
+            }
+        }
+
+        // bounded joins: a sender that never comes back leaves the case undecided
+        let start = Instant::now();
+        let mut outs: Vec<HerdOut> = Vec::new();
+        let mut stuck = 0;
+        for h in threads {
+            while !h.is_finished() && start.elapsed() < WATCHDOG {
+                thread::sleep(Duration::from_micros(300));
+            }
+            if !h.is_finished() {
+                stuck += 1;
+                continue;
+            }
+            match h.join() {
+                Ok(o) => outs.push(o),
+                Err(p) => r.violation("C09:herd:sender-panicked", &format!("a sender thread panicked: {}", panic_message(&p)), case.clone()),
+            }
+        }
+        let m = metrics(&metric_source);
+        let trunc = *m.get("queue_full_truncated").unwrap_or(&u64::MAX);
+        let blocked = *m.get("queue_full_blocked").unwrap_or(&0);
+        drop(sender);
+        if stuck > 0 || !join_bounded(handle, WATCHDOG) {
+            r.inconclusive(format!("herd: watchdog fired ({} sender thread(s) still blocked after {:?}, or the receiver did not terminate)", stuck, WATCHDOG));
+            return;
+        }
+        let seen = std::mem::take(&mut *seen.lock().unwrap());
+        let mut accepted: std::collections::HashMap<u64, BlockKind> = std::collections::HashMap::new();
+        let mut handed_back: HashSet<u64> = HashSet::new();
+        for o in outs {
+            for v in o.viols {
+                r.violation(&v.sig, &v.what, case.clone());
+            }
+            accepted.extend(o.accepted);
+            handed_back.extend(o.handed_back);
+        }
+        let mut delivered: std::collections::HashMap<u64, u32> = std::collections::HashMap::new();
+        let mut oversized = 0u64;
+        for b in &seen.batches {
+            if b.len() > cap {
+                oversized += 1;
+            }
+            for x in b {
+                *delivered.entry(*x).or_insert(0) += 1;
+            }
+        }
+        let takes = seen.batches.len() as u64;
+        r.observe("herd:cases", 1);
+        r.observe("herd:sender-threads-or-tasks", n_senders as u64);
+        r.observe("herd:fallible-sends:ok", accepted.len() as u64);
+        r.observe("herd:fallible-sends:handed-back", handed_back.len() as u64);
+        r.observe("herd:sends-that-blocked(queue_full_blocked)", blocked);
+        r.observe("herd:takes", takes);
+        r.observe("herd:blocked-senders-woken-by-takes(sum)", seen.waiting_sum);
+        r.observe("herd:takes-waking-more-senders-than-capacity", seen.takes_waking_more_than_capacity);
+        r.observe(&format!("herd:variant:{}", mode.name()), 1);
+        let numbers = json!({"ok": accepted.len(), "handed_back": handed_back.len(), "delivered": delivered.len(), "takes": takes,
+            "queue_full_truncated": trunc, "queue_full_blocked": blocked, "max_blocked_senders_woken_by_one_take": seen.waiting_max,
+            "mean_blocked_senders_woken_per_take": if takes > 0 { seen.waiting_sum as f64 / takes as f64 } else { 0.0 },
+            "takes_waking_more_senders_than_capacity": seen.takes_waking_more_than_capacity, "largest_batch": seen.batches.iter().map(|b| b.len()).max().unwrap_or(0)});
+        let detail = |extra: Json| {
+            let mut c = case.clone();
+            c["observed"] = numbers.clone();
+            if !extra.is_null() {
+                c["witness"] = extra;
+            }
+            c
+        };
+        // no plain send exists: any truncation is a silent discard by a fallible variant
+        if trunc != 0 {
+            r.violation(
+                "C09:fallible-send:truncated-the-queue",
+                &format!(
+                    "queue_full_truncated = {} in a scenario that contains no plain send: {} senders looped {} on capacity {}; an overflow truncation here discards items whose fallible send returned Ok",
+                    trunc, n_senders, mode.name(), cap
+                ),
+                detail(Json::Null),
+            );
+        }
+        if oversized > 0 || seen.max_pending as usize > cap {
+            r.violation(
+                "C09:bound:batch-exceeds-capacity:woken-senders-exceed-capacity",
+                &format!("{} batch(es) larger than the capacity {} reached the processor (largest pending length seen: {})", oversized, cap, seen.max_pending),
+                detail(Json::Null),
+            );
+        }
+        // every Ok reaches the processor exactly once
+        let mut lost: Vec<(u64, BlockKind)> = accepted.iter().filter(|(id, _)| !delivered.contains_key(id)).map(|(id, k)| (*id, *k)).collect();
+        lost.sort_by_key(|l| l.0);
+        let mut lost_kinds: Vec<BlockKind> = Vec::new();
+        for (_, k) in &lost {
+            if !lost_kinds.contains(k) {
+                lost_kinds.push(*k);
+            }
+        }
+        for k in lost_kinds {
+            let of_kind: Vec<u64> = lost.iter().filter(|l| l.1 == k).map(|l| l.0).collect();
+            r.violation(
+                &format!("C09:fallible-send:accepted-item-lost:woken-senders-exceed-capacity:{}", k.name()),
+                &format!(
+                    "{} item(s) for which {} returned Ok never reached the processor (e.g. {:#x}); {} senders, capacity {}, up to {} blocked senders woken by one take, no plain send anywhere, queue_full_truncated = {}",
+                    of_kind.len(), k.name(), of_kind[0], n_senders, cap, seen.waiting_max, trunc
+                ),
+                detail(json!({"lost": of_kind.iter().take(24).map(|x| format!("{:#x}", x)).collect::<Vec<_>>()})),
+            );
+        }
+        if let Some((x, n)) = delivered.iter().find(|(_, n)| **n > 1) {
+            r.violation(
+                "C09:fallible-send:item-delivered-twice:woken-senders-exceed-capacity",
+                &format!("item {:#x} reached the processor {} times", x, n),
+                detail(Json::Null),
+            );
+        }
+        if let Some(x) = delivered.keys().find(|x| handed_back.contains(x)) {
+            r.violation(
+                "C09:delivered:item-that-was-handed-back",
+                &format!("item {:#x} was handed back to its sender (Err) but reached the processor", x),
+                detail(Json::Null),
+            );
+        }
+        if let Some(x) = delivered.keys().find(|x| !accepted.contains_key(x) && !handed_back.contains(x)) {
+            r.violation("C09:delivered:item-not-pending", &format!("item {:#x} reached the processor but no send of it returned", x), detail(Json::Null));
+        }
+        r.nontrivial(&("herd", cap, n_senders, mode, rk, seen.takes_waking_more_than_capacity.min(2), handed_back.len().min(2)));
+        if r.wants_sample() && i < 2 {
+            r.sample(|| json!({"case": case, "observed": numbers}));
+        }
+    }
 }
 
 // ---------------------------------------------------------------------------
@@ -2520,6 +2862,13 @@ fn main() {
             "refill" => {
                 for k in 0..4 {
                     threads::refill_case(&mut r, cseed, idx + k, cap);
+                }
+            }
+            #[cfg(not(miri))]
+            "herd" => {
+                emit_batcher::verif::set_delay_divisor(1000);
+                for _ in 0..5 {
+                    threads::herd_case(&mut r, cseed, idx);
                 }
             }
             #[cfg(not(miri))]
@@ -2736,6 +3085,16 @@ fn main() {
                 for i in 0..n {
                     let cap = caps2[(i % caps2.len() as u64) as usize];
                     threads::conc_case(r, seed, i, cap, ops_per);
+                }
+            });
+        }
+        if want("herd") {
+            let args2 = args.clone();
+            bounded_section(&mut r, "herd", sec_limit, move |r| {
+                // one case at a time: the woken senders of a case should really run at once
+                let n = args2.n(20, 400);
+                for i in 0..n {
+                    threads::herd_case(r, seed, i);
                 }
             });
         }
